@@ -19,6 +19,11 @@ structure Pipe where
   resBuff : List (Nat × Bytes) := []       -- std::map<int, Respond*>
   valid : Bool := true
   written : List (Nat × Bytes) := []
+  /-- send side (BufferedFd): how many of the bytes handed to `send` the kernel has accepted, i.e.
+  the peer can read — the rest sits in the send buffer (partial writes of large responses) -/
+  sent : Nat := 0
+  /-- ghost: how often the connection object was torn down (`delete conn`) -/
+  disconnects : Nat := 0
 deriving DecidableEq, Repr
 
 namespace Pipe
@@ -55,8 +60,24 @@ def commit (p : Pipe) (i : Nat) (r : Bytes) : Pipe :=
     if p'.pastClose then p' else flush (p'.resBuff.length + 1) p'
   else { p with resBuff := (i, r) :: p.resBuff.filter (fun e => e.1 != i) }
 
-/-- `tcp_server_.disconnect(ct); delete conn` -/
-def disconnect (p : Pipe) : Pipe := { p with valid := false, resBuff := [] }
+/-- everything handed to `tcp_server_.send`, as one byte stream -/
+def handed (p : Pipe) : Bytes := (p.written.map (·.2)).flatten
+
+/-- what the peer has received so far (send-side contract of BufferedFd / C06: the bytes handed
+to `send` reach the peer in order) -/
+def peerBytes (p : Pipe) : Bytes := p.handed.take p.sent
+
+/-- `tcp_server_.disconnect(ct); delete conn` (also: onTcpDisconnected). Whatever is still in the
+send buffer is lost with the connection. -/
+def disconnect (p : Pipe) : Pipe := { p with valid := false, resBuff := [], disconnects := p.disconnects + 1 }
+
+/-- the kernel accepts `n` more bytes of the send buffer (write event / direct write) -/
+def kernel (p : Pipe) (n : Nat) : Pipe :=
+  if !p.valid then p else { p with sent := min (p.sent + n) p.handed.length }
+
+/-- the TcpConnection reports that the peer closed (read returned 0) or failed; for a connection
+that was already released no such callback exists (its BufferedFd is disabled and deleted) -/
+def peerClosed (p : Pipe) : Pipe := if !p.valid then p else p.disconnect
 
 /-- `Impl::onTcpSendCompleted` -/
 def sendComplete (p : Pipe) : Pipe :=
@@ -68,14 +89,16 @@ inductive PipeOp
   | req (last : Bool)               -- the feed loop hands a request to the handlers
   | commit (i : Nat) (r : Bytes)    -- the Context of request i is destroyed
   | sendComplete                    -- the send buffer drained
-  | drop                            -- parser failure / peer gone: connection dropped
+  | drop                            -- parser failure / peer closed: connection dropped
+  | kernel (n : Nat)                -- the kernel takes n more bytes of the send buffer
 deriving DecidableEq, Repr
 
 def Pipe.step (p : Pipe) : PipeOp → Pipe
   | .req last => p.onRequest last
   | .commit i r => p.commit i r
   | .sendComplete => p.sendComplete
-  | .drop => p.disconnect
+  | .drop => p.peerClosed
+  | .kernel n => p.kernel n
 
 def Pipe.run (p : Pipe) (ops : List PipeOp) : Pipe := ops.foldl Pipe.step p
 
@@ -91,6 +114,7 @@ structure Server where
   pipe : Pipe := {}
   outstanding : List Nat := []         -- requests delivered whose Context is still alive
   syncs : List (Nat × Bytes) := []     -- request indices the handler answers inside the callback
+  cclosed : Bool := false              -- the client has closed its socket
 deriving Repr
 
 /-- the handler runs for every request event, in order -/
@@ -107,7 +131,9 @@ def Server.deliver (s : Server) : List Ev → Server
 
 /-- the send-complete event that follows a burst of writes once the loop is quiescent -/
 def Server.quiesce (s : Server) (writtenBefore : Nat) : Server :=
-  if s.pipe.written.length > writtenBefore then { s with pipe := s.pipe.sendComplete } else s
+  if s.pipe.written.length > writtenBefore then
+    { s with pipe := (s.pipe.kernel s.pipe.handed.length).sendComplete }   -- client reads everything, buffer drains
+  else s
 
 /-- client writes a segment; loop runs until quiescent -/
 def Server.seg (cfg : Cfg) (s : Server) (bytes : Bytes) : Server × Out :=
@@ -124,5 +150,18 @@ def Server.done (s : Server) (i : Nat) (body : Bytes) : Option Server :=
     let s1 := { s with outstanding := s.outstanding.filter (· != i), pipe := s.pipe.commit i (respond body) }
     some (s1.quiesce s.pipe.written.length)
   else none
+
+/-- the client closes its socket; with `commitFirst` a handler finishes request `i` in the same
+loop pass, before the close is noticed -/
+def Server.cclose (s : Server) (commitFirst : Option (Nat × Bytes)) : Option Server :=
+  if s.cclosed then none else
+  match commitFirst with
+  | none => some { s with cclosed := true, pipe := s.pipe.peerClosed, conn := { s.conn with dead := true, buf := [] } }
+  | some (i, body) =>
+    if s.outstanding.contains i then
+      let p := s.pipe.commit i (respond body)
+      some { s with cclosed := true, outstanding := s.outstanding.filter (· != i), pipe := (p.kernel p.handed.length).peerClosed,
+                    conn := { s.conn with dead := true, buf := [] } }
+    else none
 
 end Tbox.C12
